@@ -123,24 +123,26 @@ def coq_make(target=None, timeout=3600):
     cmd = "timeout %d make -j%d %s" % (timeout, NCPU, target or "")
     return sh(cmd, cwd=COQ, check=False)
 
-def build_model():
-    """Build the Coq development (no-op when up to date), then the OCaml driver from the extracted model."""
+def build_model(extract="model", driver="driver.ml"):
+    """Build the Coq development (no-op when up to date), then an OCaml driver from an extracted file.
+    coq/<extract>.ml(i) is copied as model.ml(i) next to ocaml/glue.ml and ocaml/<driver>."""
     rc, out = coq_make()
     if rc != 0:
         raise RuntimeError("Coq development does not build:\n" + out[-4000:])
-    key = tree_hash([os.path.join(COQ, "model.ml"), os.path.join(COQ, "model.mli"), os.path.join(VERIF, "ocaml")])
-    outd = os.path.join(BUILD, "model", key)
+    srcs = [os.path.join(COQ, extract + ".ml"), os.path.join(COQ, extract + ".mli"),
+            os.path.join(VERIF, "ocaml", "glue.ml"), os.path.join(VERIF, "ocaml", driver)]
+    key = tree_hash(srcs)
+    outd = os.path.join(BUILD, "model", extract + "-" + key)
     exe = os.path.join(outd, "mdl")
     if not os.path.exists(exe):
         os.makedirs(outd, exist_ok=True)
-        for f in ("model.ml", "model.mli"):
-            shutil.copy(os.path.join(COQ, f), outd)
-        for f in os.listdir(os.path.join(VERIF, "ocaml")):
-            if f.endswith(".ml"): shutil.copy(os.path.join(VERIF, "ocaml", f), outd)
-        order = ["model.mli", "model.ml"] + [f for f in ("glue.ml",) if os.path.exists(os.path.join(outd, f))] + ["driver.ml"]
-        sh(["ocamlfind", "ocamlopt", "-w", "-a"] + order + ["-o", "mdl"], cwd=outd)
+        shutil.copy(srcs[0], os.path.join(outd, "model.ml"))
+        shutil.copy(srcs[1], os.path.join(outd, "model.mli"))
+        shutil.copy(srcs[2], os.path.join(outd, "glue.ml"))
+        shutil.copy(srcs[3], os.path.join(outd, "driver.ml"))
+        sh(["ocamlfind", "ocamlopt", "-w", "-a", "model.mli", "model.ml", "glue.ml", "driver.ml", "-o", "mdl"], cwd=outd)
     os.utime(outd, None)
-    prune(os.path.join(BUILD, "model"), 3)
+    prune(os.path.join(BUILD, "model"), 8)
     return exe
 
 # ----------------------------------------------------------------------------- proof obligations
